@@ -11,7 +11,7 @@ DESIGN_REF = "DESIGN.md section 4 / C17"
 CHUNK = 8
 RULE = ("every 2-variable letter combination of the convex family (soft, rot2; thorough: 3 "
         "families x 3 Hessians) and 12 non-convex objectives x n in {2,3} x box {box,mixed} x "
-        "start {in,vertex}, x scale s in {1e-3, 0.37, 3, 1e3, packaged projected-gradient "
+        "start {in,vertex}, x scale s in {1e-3, 0.37, 3, 1e3, 1.000001, 0.999995, 1.0, packaged projected-gradient "
         "unit scaler} x ftarget {None, geometric midpoint between two consecutive objective "
         "values of the reference trajectory} x maxcor {1,3}; run A (scaler) and run B "
         "(s*f, s*grad f, ftarget*s) must agree BITWISE in evaluation log, x, fun, jac, nfev, "
@@ -23,7 +23,9 @@ ASSUMPTIONS = [
     "cases whose start has a zero projected gradient are skipped for the packaged scaler "
     "(division by zero is outside its domain)",
 ]
-SCALES = (1e-3, 0.37, 3.0, 1e3, "packaged")
+# (the last three: the neighbourhood of the identity factor, s = 1 +- a few 1e-6, and 1.0)
+SCALES = (1e-3, 0.37, 3.0, 1e3, "packaged", 1.000001, 0.999995, 1.0)
+NMAIN = 5
 
 
 def cases(tier, variants):
@@ -57,7 +59,7 @@ def cases(tier, variants):
             for n in (2, 3):
                 for box in ("box", "mixed"):
                     for start in ("in", "vertex"):
-                        for s in range(len(SCALES)):
+                        for s in list(range(NMAIN)) + [NMAIN + (n + m_) % 2 for m_ in (0,)]:
                             for m in (1, 3):
                                 for tg in (0, 1):
                                     yield dict(kind="nonconvex", fam=fam, n=n, box=box,
